@@ -103,7 +103,8 @@ func checkRunBlocks(x *parserExec) {
 
 // runTailBehindOldSource delimits the known finding D22 (hash parsers). It
 // tells whether everything beyond the allowed literal bytes of the block is a
-// tail of fewer than the minimum match length bytes behind the last match, and
+// tail of fewer bytes than the parser's (short) hash covers - positions it
+// cannot search any more - behind the last match, and
 // that match - taken from a candidate in an older run of the same byte - could
 // not be extended: the byte behind its source is not the run byte.
 func runTailBehindOldSource(cc PCfg, b blockRec, bound int) bool {
@@ -120,7 +121,16 @@ func runTailBehindOldSource(cc PCfg, b blockRec, bound int) bool {
 		covered += int(s.LitLen) + int(s.MatchLen)
 	}
 	tail := b.N - covered
-	if tail < 1 || tail >= cc.MinMatch() || len(b.Lits)-tail > bound {
+	// what the parser cannot search any more: positions with fewer bytes left
+	// in the block than its (short) hash covers, at least a minimum match
+	unsearchable := cc.MinMatch()
+	switch d := cc.Completed(); cc.Kind {
+	case "HP", "BHP", "BUP":
+		unsearchable = maxInt(unsearchable, d.InputLen)
+	case "DHP", "BDHP":
+		unsearchable = maxInt(unsearchable, d.InputLen1)
+	}
+	if tail < 1 || tail >= unsearchable || len(b.Lits)-tail > bound {
 		return false
 	}
 	last := b.Seqs[len(b.Seqs)-1]
